@@ -3,7 +3,9 @@ open Atomica
 
 /-- handlers: first token selects the model module; the rest are its arguments -/
 def handlers : List (String × (List String → Option String)) :=
-  [ ("grid", Grid.handle) ]
+  [ ("grid", Grid.handle),
+    ("estep", Engine.handleStep), ("eflush", Engine.handleFlush), ("ewf", Engine.handleWf),
+    ("estepref", Engine.handleStepRef), ("eflushref", Engine.handleFlushRef) ]
 
 /-- One request per line: `<kind> <args…>`; one canonical reply per line. -/
 def dispatch (line : String) : String :=
